@@ -3,30 +3,37 @@ from ..runner import Harness, Spec
 SPEC = Spec(
     pid="C03",
     lean_modules=["OtelVerif.Props.C03"],
-    extra_audit_modules=["OtelVerif.Lemmas.C03"],
+    extra_audit_modules=["OtelVerif.Lemmas.C03", "OtelVerif.Lemmas.C03Term", "OtelVerif.Lemmas.C03Bridge", "OtelVerif.Lemmas.C03ReplaySound"],
     harnesses=[
         Harness(name="shutdown", module="exporter", pkg="exporter/exporterhelper",
                 files={"zz_verif_c03_shutdown_test.go": "c03/shutdown_test.go"},
                 test="TestVerifC03Shutdown", driver="drv_c03", go="go1.26",
                 n={"quick": 6000, "thorough": 150000}, timeout_s=1500),
     ],
-    rule="each case = one configuration of the REAL logs exporter (exporterhelper.NewLogs: obsreport -> queue/batcher -> retry -> "
-         "timeout -> pusher): queue {memory, persistent (map storage), none+legacy batcher} x sizer {requests, items} x capacity "
-         "(small = refusals / large) x consumers 1-3 x batch {none, sending_queue::batch, legacy WithBatcher; flush timeout 30ms/1s/1h, "
-         "min 0-40, max 0 or >= min} x retry {off, on: initial 10ms-1s, max elapsed 0/300ms/10s} x wait_for_result x "
-         "block_on_overflow x timeout {0, 2s}; 1-12 sends of 1-8 identified log records at generated virtual instants, Shutdown "
-         "requested at/near a send, a flush-timer or back-off instant, a slow call, or after everything, plus 0-2 late sends; "
-         "backend script of up to 30 calls (ok / transient / permanent, 0-3 s, 0-60% failures); 7 hand-made corpus schedules run "
-         "first. All in one testing/synctest bubble (virtual time). Persistent cases are followed by a restart on the same "
-         "storage to read what is recoverable. non-trivial = at the shutdown request some accepted item had not finished an export "
-         "call (queued, batched, in flight or in back-off); distinct = distinct op sequences.",
+    rule="each case = one configuration of the REAL exporter of one signal (exporterhelper.NewLogs/NewTraces/NewMetrics, or in 3/4 of "
+         "the cases New<Signal>Request with a thin wrapper around the helper's own request type that makes the batcher's MergeSplit "
+         "calls observable): obsreport -> queue/batcher -> retry -> timeout -> pusher; queue {memory, persistent (map storage, "
+         "requests- or items-sized), none+legacy batcher} x sizer {requests, items} x capacity (small = refusals / large) x consumers "
+         "1-3 x batch {none, sending_queue::batch, legacy WithBatcher; flush timeout 30ms/1s/1h, min 0-40, max 0 or >= min; "
+         "split-heavy variant min 2-4, max = min..min+1 with requests up to 11 items} x retry {off, on: initial 10ms-1s, max elapsed "
+         "0/300ms/10s} x wait_for_result x block_on_overflow x timeout {0, 2s} x storage fault {none, plain Set writes fail from just "
+         "before Shutdown}; 1-12 sends of identified items at generated virtual instants, Shutdown requested at/near a send, a "
+         "flush-timer or back-off instant, a slow call, or after everything, plus 0-2 late sends; backend script of up to 30 calls "
+         "(ok / transient / permanent, 0-3 s, 0-60% failures); 10 hand-made corpus schedules run first. All in one testing/synctest "
+         "bubble (virtual time). Persistent cases: storage decoded at return and a restart on the same storage. Every returned, "
+         "replayable trace (no batching, or wrapper) is additionally REPLAYED THROUGH `fire` (hidden steps inferred; every fired "
+         "label must be enabled). non-trivial = at the shutdown request some accepted item had not finished an export call "
+         "(queued, batched, in flight or in back-off); distinct = distinct op sequences.",
     trusted_base=[
         "Lean 4.33.0 kernel; axioms per theorem listed under axioms_per_theorem",
         "hand-written LTS of the shutdown protocol (Model/C03.lean: base_exporter/queue_batch/async_queue/memory_queue/"
-        "persistent_queue Read+onDone/default_batcher/disabled_batcher/retry_sender at critical-section granularity); its "
-        "correspondence to the code's hidden steps is by reading — the tie is the monitor: every recorded trace of the real exporter "
-        "is judged by the Lean monitor C03.verdict (proved sound: C03_check_memory_sound / C03_check_persistent_sound) and the "
-        "verdict is cross-checked against an independent Go oracle",
+        "persistent_queue Read+onDone/default_batcher/disabled_batcher/retry_sender at critical-section granularity), tied in two ways: "
+        "(1) every recorded trace of the real exporter is judged by the Lean monitor C03.verdict (proved sound; and proved to accept "
+        "the trace of every run of the LTS: C03_bridge_memory/_persistent) and the verdict is cross-checked against an independent Go "
+        "oracle; (2) every returned replayable trace must be a run of the LTS (Model/C03Replay.lean: hidden steps inferred as late as "
+        "possible, so FIFO order and the instant of consumer exits are not checked)",
+        "the observable request wrapper (harness) delegates ItemsCount/MergeSplit/OnError/encoding to the helper's own request type",
+        "retries-left flag of a failed call is computed by the harness with the real cenkalti back-off and virtual timestamps",
         "Go runtime (scheduler, mutex, channels, select, sync.Cond, WaitGroup), testing/synctest virtual time, OpenTelemetry SDK",
         "storage extension = in-memory map with atomic batches that fails (and reports) consumer-side use after Close",
         "goroutine-leak and 'all export calls have returned' are observed on the implementation (goroutine stacks, event log); the "
@@ -35,6 +42,6 @@ SPEC = Spec(
     assumptions=[
         "num_consumers >= 1 (Config.Validate)",
         "MergeSplit conserves items (property C04): the model allows any re-partition that is a permutation",
-        "termination of Shutdown is monitored (never-returns oracle), not proved",
+        "worker pool of the default batcher has at least one slot (termination theorem); a stopped retry sender schedules no retry",
     ],
 )
